@@ -196,6 +196,21 @@ class D(Driver):
                         if events.is_harness_exc(e):
                             raise
                         bump(res["counters"], "remove_empty_exception." + type(e).__name__)
+                if tag == "path" and lab in ("coincident_twice", "outline", "signed_area_cancels", "mixed_subpaths") and rng.random() < 0.5:
+                    # the same geometry under the other fill rule, in the same process (anything
+                    # memoised by geometry alone would leak the first answer into the second)
+                    import dataclasses as _dc
+
+                    other = "evenodd" if sh.fill_rule == "nonzero" else "nonzero"
+                    try:
+                        twin = _dc.replace(sh, fill_rule=other, style="")
+                        res["evals"] += 1
+                        bump(res["features"], "same_geometry_other_rule")
+                        twin.might_paint()
+                        sh.might_paint()
+                    except Exception as e:
+                        if events.is_harness_exc(e):
+                            raise
                 if res["sample"] is None and lab == "signed_area_cancels":
                     res["sample"] = {"shape": paintmon.describe(sh)}
         else:
